@@ -157,7 +157,9 @@ class NameExpander:
                                     "parameter %s out of range: %s" % (
                                         pname, p_list_str))
                             spec_vals[pname] = nval
-                    else:
+                    elif pname not in (p for p, _ in used_params):
+                        # (a parameter used more than once in a name is
+                        # still only looped over once)
                         used_params.append((pname, self.param_cfg[pname]))
                     tmpl += self.param_tmpl_cfg[pname]
                 if tail:
